@@ -61,7 +61,10 @@ pub fn try_parse_response<const N: usize>(
         builder = builder.header(h.name, h.value);
     }
 
-    let response = builder.body(()).expect("a valid response");
+    // httparse and http do not agree on everything (a header name of 64k is one example).
+    let response = builder
+        .body(())
+        .map_err(|e| Error::HttpParseFail(e.to_string()))?;
 
     Ok(Some((input_used, response)))
 }
@@ -123,7 +126,10 @@ pub fn try_parse_partial_response<const N: usize>(
         builder = builder.header(h.name, h.value);
     }
 
-    let response = builder.body(()).expect("a valid response");
+    // httparse and http do not agree on everything (a header name of 64k is one example).
+    let response = builder
+        .body(())
+        .map_err(|e| Error::HttpParseFail(e.to_string()))?;
 
     Ok(Some(response))
 }
@@ -186,7 +192,10 @@ pub fn try_parse_request<const N: usize>(
         builder = builder.header(h.name, h.value);
     }
 
-    let request = builder.body(()).expect("a valid response");
+    // httparse and http do not agree on everything (a header name of 64k is one example).
+    let request = builder
+        .body(())
+        .map_err(|e| Error::HttpParseFail(e.to_string()))?;
 
     Ok(Some((input_used, request)))
 }
